@@ -77,7 +77,7 @@ func init() {
 		W: map[string]int{
 			"app": 8, "ins": 7, "set": 8, "rem": 9, "get": 3, "pop": 1, "appN": 5, "remN": 4,
 			"mset": 12, "mget": 3, "mhas": 1, "mrem": 8, "mpop": 1, "msetN": 5, "mremN": 3, "styp": 2,
-			"reget": 2, "reopen": 5, "commit": 3, "evict": 4, "grow": 1, "mgrow": 1, "setN": 2, "mupdN": 2,
+			"reget": 2, "reopen": 5, "commit": 3, "evict": 4, "grow": 1, "mgrow": 1, "setN": 2, "mupdN": 2, "shrink": 1, "mshrink": 1,
 		},
 		Roots: [][]RootSpec{
 			{{K: "arr", Addr: 1, TI: 1}},
